@@ -252,7 +252,8 @@ fn c08_hist(input: &Input, obs: &mut Obs) -> Result<(), Fail> {
                         let cl = &w.clients[c];
                         let pending: usize = cl.expected.iter().map(|e| e.bytes.len()).sum::<usize>() + 64 * cl.composed.len();
                         pending < cl.recv.len() + 1500 && cl.state != CState::Closed
-                    }) && !small_buf || (0..nclients).all(|c| w.clients[c].expected.is_empty());
+                    }) && !w.sndbuf_shrunk
+                        || (0..nclients).all(|c| w.clients[c].expected.is_empty());
                     if safe {
                         w.flush();
                         flushed = true;
